@@ -173,6 +173,37 @@ def _mentions(o, local):
     return False
 
 
+def _single_def_rv(body, local):
+    """the rvalue of the only whole assignment to `local` in body (a JSON body), or None"""
+    found = None
+    for b in body['blocks']:
+        for st in b['stmts']:
+            if st['k'] == 'assign' and st['p']['l'] == local and not st['p']['p']:
+                if found is not None:
+                    return None
+                found = st['rv']
+        t = b['term']
+        if t and t['k'] == 'call' and t['dest']['l'] == local and not t['dest']['p']:
+            return None
+    return found
+
+
+def _const_fn(body, op, depth=3):
+    """the function item an operand denotes (`parse_old_chunk_04` passed as a `fn(&[u8]) -> ..` pointer): the const itself, or a local
+    whose only definition is that const, possibly through the fn-item -> fn-pointer coercion or plain copies"""
+    if op.get('k') == 'const':
+        return op.get('fn') if isinstance(op.get('fn'), dict) else None
+    if op.get('k') in ('move', 'copy') and not op['p']['p'] and depth > 0:
+        rv = _single_def_rv(body, op['p']['l'])
+        if rv is None:
+            return None
+        if rv['k'] == 'use':
+            return _const_fn(body, rv['op'], depth - 1)
+        if rv['k'] == 'cast' and 'ReifyFnPointer' in rv.get('ck', ''):
+            return _const_fn(body, rv['op'], depth - 1)
+    return None
+
+
 def _err_preserving_sink(caller, bidx, d, depth):
     """local d (a Result) is consumed in block bidx by Result::map / map_err whose result is the caller's return value or goes to `?`
     (possibly through further map / map_err): an Err stays an Err and ends the caller"""
@@ -230,6 +261,11 @@ def _splice(caller, bi, helper):
         caller['locals'].append(dict(l, inlined_from=helper['path']))
     if not t['dest']['p']:
         caller['locals'][loff]['ret_dest'] = t['dest']['l']      # for q.error_blocks: a hand-written `?` on the result is judged on the CFG
+    # the helper's result IS the caller's result (`match ctx { A => self.handle_a(..), .. }` as the tail expression): an Err of the helper
+    # ends the caller with that error
+    if not t['dest']['p'] and t['dest']['l'] == 0 and ('Result<' in caller['locals'][0]['ty'].replace('result::Result', 'Result') or
+                                                       caller['locals'][0]['ty'].replace('std::', '').replace('option::', '').startswith('Option<')):
+        caller['locals'][loff]['err_exit'] = True
     # `helper(..)?`: the call's destination is consumed only by Try::branch in the continuation block
     tgt_blk = caller['blocks'][t['target']] if isinstance(t.get('target'), int) else None
     if tgt_blk is not None and not t['dest']['p']:
@@ -273,12 +309,15 @@ def _splice(caller, bi, helper):
         tb_ = caller['blocks'][target]
         tt_ = tb_['term']
         dl_ = [st['p']['l'] for st in tb_['stmts'] if st['k'] == 'assign' and st['rv']['k'] == 'discr' and st['rv']['p']['l'] == dest['l'] and not st['rv']['p']['p']]
+        dty_ = caller['locals'][dest['l']]['ty'].replace('result::Result', 'Result').replace('option::Option', 'Option').replace('std::', '')
         if len(dl_) == 1 and tt_ and tt_['k'] == 'switch' and tt_['discr'].get('k') in ('copy', 'move') and tt_['discr']['p']['l'] == dl_[0] and \
-                'Result<' in caller['locals'][dest['l']]['ty'].replace('result::Result', 'Result'):
-            e1 = [b_ for v_, b_ in tt_['targets'] if v_ == 1]
+                dty_.startswith(('Result<', 'Option<')):
+            # the failure value's discriminant: Err = 1 (Ok = 0), None = 0 (Some = 1)
+            fv, sv = (1, 0) if dty_.startswith('Result<') else (0, 1)
+            e1 = [b_ for v_, b_ in tt_['targets'] if v_ == fv]
             if e1:
                 mroute = e1[0]
-            elif any(v_ == 0 for v_, _ in tt_['targets']) and isinstance(tt_.get('otherwise'), int):
+            elif any(v_ == sv for v_, _ in tt_['targets']) and isinstance(tt_.get('otherwise'), int):
                 mroute = tt_['otherwise']
     nhelper = len(helper['blocks'])
     for hb in helper['blocks']:
@@ -296,33 +335,57 @@ def _splice(caller, bi, helper):
         elif ht and ht['k'] == 'resume' and isinstance(unwind, int) and not isinstance(unwind, bool):
             nb['term'] = {'k': 'goto', 'target': unwind, 'span': ht.get('span'), 'macros': []}
         caller['blocks'].append(nb)
+    # a helper that is handed a function item and calls it (`fn on_old_palette_chunk(&mut self, data, parse: fn(&[u8]) -> ..)`): in this
+    # copy the pointer is known, so the indirect call becomes the direct call it is
+    fnargs = {k + 1: _const_fn(caller, arg) for k, arg in enumerate(t['args'])}
+    if any(fnargs.values()):
+        for i in range(boff, boff + nhelper):
+            nt = caller['blocks'][i]['term']
+            if nt and nt['k'] == 'call' and not nt.get('fn') and isinstance(nt.get('indirect'), dict):
+                iop = nt['indirect']
+                if iop.get('k') in ('move', 'copy') and not iop['p']['p']:
+                    hl = iop['p']['l'] - loff
+                    seen_ = set()
+                    while 0 <= hl < len(helper['locals']) and hl not in seen_ and not (1 <= hl <= helper['arg_count']):
+                        seen_.add(hl)
+                        rv = _single_def_rv(helper, hl)
+                        if rv is not None and rv['k'] == 'use' and rv['op'].get('k') in ('move', 'copy') and not rv['op']['p']['p']:
+                            hl = rv['op']['p']['l']
+                        else:
+                            break
+                    if 1 <= hl <= helper['arg_count'] and fnargs.get(hl):
+                        nt['fn'] = copy.deepcopy(fnargs[hl])
+                        nt['was_indirect'] = nt.pop('indirect')
     if brk is not None:
         # error exits: blocks of the inlined copy that set the helper's return slot to an error value
         bB = caller['blocks'][target]
         first = boff
-        exits = []
-        for i in range(first, first + nhelper):
-            nb = caller['blocks'][i]
-            if nb.get('cleanup'):
-                continue
-            st_err = any(st['k'] == 'assign' and st['p']['l'] == loff and not st['p']['p'] and st['rv']['k'] == 'agg' and st['rv'].get('variant') == 'Err'
-                         for st in nb['stmts'])
-            ht = nb['term']
-            call_err = bool(ht) and ht['k'] == 'call' and ht['dest']['l'] == loff and not ht['dest']['p'] and \
-                (ht.get('fn') or {}).get('orig', '').endswith('from_residual')
-            if st_err or call_err:
-                exits.append((i, 'call' if call_err else 'stmt'))
+        exits = _error_exits(caller, boff, nhelper, loff)
         for i, how in exits:
             n0 = len(caller['blocks'])
             # N: dest = move h0 ; B': _c = Try::branch(move dest) ; C': goto break-arm
             caller['blocks'].append({'stmts': [{'k': 'assign', 'p': copy.deepcopy(dest), 'rv': {'k': 'use', 'op': {'k': 'move', 'p': {'l': loff, 'p': [], 'ty': helper['locals'][0]['ty']}}},
                                                 'span': span, 'macros': []}],
-                                     'term': {'k': 'goto', 'target': n0 + 1, 'span': span, 'macros': []}, 'cleanup': False})
+                                     'term': {'k': 'goto', 'target': n0 + 1, 'span': span, 'macros': []}, 'cleanup': False, 'err_dup': True})
             bp = copy.deepcopy(bB)
             bp['term']['target'] = n0 + 2
+            bp['err_dup'] = True
             caller['blocks'].append(bp)
             caller['blocks'].append({'stmts': copy.deepcopy(caller['blocks'][bB['term']['target']]['stmts']),
                                      'term': {'k': 'goto', 'target': brk, 'span': span, 'macros': []}, 'cleanup': False})
+            nb = caller['blocks'][i]
+            if how == 'call':
+                nb['term']['target'] = n0
+            else:
+                nb['term'] = {'k': 'goto', 'target': n0, 'span': nb['term'].get('span') if nb['term'] else span, 'macros': []}
+    elif caller['locals'][loff].get('err_exit') and not dest['p'] and dest['l'] == 0 and isinstance(target, int):
+        # the helper's result is the caller's own result: its error exits leave through a block of their own, so that when the caller is
+        # itself inlined under a `?` the error path can still be told from the Ok path (they would otherwise meet in the helper's return block)
+        for i, how in _error_exits(caller, boff, nhelper, loff):
+            n0 = len(caller['blocks'])
+            caller['blocks'].append({'stmts': [{'k': 'assign', 'p': copy.deepcopy(dest), 'rv': {'k': 'use', 'op': {'k': 'move', 'p': {'l': loff, 'p': [], 'ty': helper['locals'][0]['ty']}}},
+                                                'span': span, 'macros': []}],
+                                     'term': {'k': 'goto', 'target': target, 'span': span, 'macros': []}, 'cleanup': False, 'err_route': True})
             nb = caller['blocks'][i]
             if how == 'call':
                 nb['term']['target'] = n0
@@ -348,12 +411,16 @@ def _error_exits(caller, first, nhelper, loff):
         nb = caller['blocks'][i]
         if nb.get('cleanup'):
             continue
-        st_err = any(st['k'] == 'assign' and st['p']['l'] == loff and not st['p']['p'] and st['rv']['k'] == 'agg' and st['rv'].get('variant') == 'Err'
+        # (the None of an Option-returning helper is its failure value in the same way: `helper(..)?`, `match helper(..) { None => .. }`)
+        st_err = any(st['k'] == 'assign' and st['p']['l'] == loff and not st['p']['p'] and st['rv']['k'] == 'agg' and
+                     (st['rv'].get('variant') == 'Err' or (st['rv'].get('variant') == 'None' and 'option::Option' in st['rv'].get('adt', '')))
                      for st in nb['stmts'])
         ht = nb['term']
         call_err = bool(ht) and ht['k'] == 'call' and ht['dest']['l'] == loff and not ht['dest']['p'] and \
             (ht.get('fn') or {}).get('orig', '').endswith('from_residual')
-        if st_err or call_err:
+        # .. or hand on the error exit of a helper inlined one level further down (see 'err_route' in _splice)
+        route = bool(nb.get('err_route')) and any(st['k'] == 'assign' and st['p']['l'] == loff and not st['p']['p'] for st in nb['stmts'])
+        if st_err or call_err or route:
             exits.append((i, 'call' if call_err else 'stmt'))
     return exits
 
@@ -376,8 +443,17 @@ def apply(j):
                 new.discard(p)
                 report['kept'].append(p + ' (recursive)')
     values = _fn_values(j)
-    for _ in range(MAX_ROUNDS):
+    # innermost first: a helper is spliced only once the helpers it calls have been spliced into it, so that the error exits of the inner
+    # one are known (and routed) when the outer one is copied.  Mutually recursive helpers never become ready; the restriction is lifted
+    # for whatever is left when a round changes nothing.
+    def ready(p):
+        return not any(t and t['k'] == 'call' and _callee_path(t, bodies) in new and _callee_path(t, bodies) != p
+                       and len(t['args']) == bodies[_callee_path(t, bodies)]['arg_count']
+                       for blk in bodies[p]['blocks'] for t in [blk['term']])
+    strict = True
+    for _ in range(2 * MAX_ROUNDS):
         changed = False
+        rdy = {p for p in new if not strict or ready(p)}
         for b in j['bodies']:
             n = len(b['blocks'])
             for bi in range(n):
@@ -385,11 +461,14 @@ def apply(j):
                 if not t or t['k'] != 'call':
                     continue
                 p = _callee_path(t, bodies)
-                if p in new and p != b['path'] and len(t['args']) == bodies[p]['arg_count']:
+                if p in rdy and p != b['path'] and len(t['args']) == bodies[p]['arg_count']:
                     _splice(b, bi, bodies[p])
                     report['inlined'][p] = report['inlined'].get(p, 0) + 1
                     changed = True
         if not changed:
+            if strict:
+                strict = False
+                continue
             break
     # closures that a caller hands to an inlined helper are now called in the caller itself: inline those calls too
     for b in j['bodies']:
